@@ -30,7 +30,9 @@ theorem C16_inj_safe {P : Params} (hi : Inj P) (vals : List (Option Int)) :
     SafeFmt P vals ∧ ∀ k, SafeAt P vals k ∧ Sep P vals k :=
   ⟨hi.safeFmt vals, fun k => ⟨hi.safeAt vals k, hi.sep vals k⟩⟩
 
-/-- A checkpoint-first update never refuses (no `ValueError`). -/
+/-- A checkpoint-first update never refuses (no `ValueError`).
+(Audit: DEFINITIONAL — `SafeAt` contains `refuses … = false` and `planUpdate` is `if refuses then error else ok`.
+Kept as a reading aid, NOT counted as an obligation.) -/
 theorem C16_never_refuses {P : Params} {vals : List (Option Int)} {k : Nat} (hs : SafeAt P vals k)
     (Q : Quirks) (d : Disk) (s : St) : ∃ main cl, planUpdate Q P vals k d s = .ok (main, cl) :=
   c16_never_refuses hs Q d s
@@ -176,7 +178,10 @@ theorem C16_resume_history {P : Params} (vals : List (Option Int)) (hs : SafeFmt
 
 /-- **`best_is_train`.** Everything above is parametric in the metric column that decides "best":
 for a history of (train, val) pairs and either value of `best_is_train`, any crash schedule ends
-with all epochs recorded, last and best-by-the-chosen-column loadable with their own states. -/
+with all epochs recorded, last and best-by-the-chosen-column loadable with their own states.
+(Audit: `C16_resume` at `vals := deciding bestIsTrain ms` and `List.length_map`, nothing else — that
+`best_is_train` enters ONLY through the choice of the column is a modelling decision validated by correspondence,
+not something this proves. Kept as a reading aid, NOT counted as an obligation.) -/
 theorem C16_best_is_train {P : Params} (bestIsTrain : Bool) (ms : List (Option Int × Option Int))
     (hs : SafeFmt P (deciding bestIsTrain ms)) (tr : Train) (sched : List (Nat × Nat × Bool)) :
     RecAt P (deciding bestIsTrain ms) tr
@@ -302,7 +307,10 @@ make that explicit. -/
 /-- **What `Rec` says about the files.** On a recoverable disk the optimizer file of the last recorded
 epoch and that of the best recorded epoch hold the uninterrupted run's optimizer state — per-parameter
 state and learning rate; when the update of that epoch reduced the learning rate to `l`, the file
-has `l` (the value written into the optimizer BEFORE the checkpoint was taken). -/
+has `l` (the value written into the optimizer BEFORE the checkpoint was taken).
+(Audit: this UNPACKS the definition of `RecAt` — `loadState … = some (U tr e)` read file by file, `lrAt` and
+`U` unfolded; the content is that `Rec` is PRESERVED with the learning rate inside `U` (`C16_rec_step`,
+`C16_crash_lr`, `C16_lr_order_necessary`). Kept as a reading aid, NOT counted as an obligation.) -/
 theorem C16_saved_lr {P : Params} {vals : List (Option Int)} {tr : Train} {d : Disk} {k : Nat}
     (h : RecAt P vals tr d k) (e : Nat) (he : e = k ∨ e = bestOf (vals.take k)) (h1 : 1 ≤ e) :
     ∃ o, d.files.get (P.opath e) = some (.optim o) ∧ o = (U tr e).2 ∧ o.lr = lrAt tr e ∧
@@ -524,5 +532,97 @@ theorem C16_pinned_keepall_counterexample :
      let d := crashSession Quirks.fixed P exVals exTr (crashSession Quirks.fixed P exVals exTr Disk.blank 1 7) 0 2
      recorded d = some 1 ∧ recOk P exVals exTr d = true) := by
   decide
+
+/-! ## audit: every theorem with several hypotheses applied once with ALL of them, on instances where
+something happens (garbage of an earlier crash on the disk, a clean-up that removes files in the reverse
+order, a best epoch that changes, colliding names) -/
+
+/-- `recOk` (what the driver and the `decide` examples evaluate) implies `Rec`. -/
+theorem recOk_sound {P : Params} {vals : List (Option Int)} {tr : Train} {d : Disk}
+    (h : recOk P vals tr d = true) : Rec P vals tr d := by
+  unfold recOk at h
+  cases hr : recorded d with
+  | none => simp [hr] at h
+  | some k =>
+    simp only [hr, Bool.and_eq_true, decide_eq_true_eq] at h
+    exact ⟨k, hr, h.1.1.1, h.1.1.2, h.1.2, h.2⟩
+
+theorem recAt_of_recOk {P : Params} {vals : List (Option Int)} {tr : Train} {d : Disk} {k : Nat}
+    (h : recOk P vals tr d = true) (hk : recorded d = some k) : RecAt P vals tr d k := by
+  obtain ⟨k', hk', rest⟩ := recOk_sound h
+  rw [hk] at hk'; cases hk'
+  exact ⟨hk, rest⟩
+
+/-- the disk after epoch 1 of the example run, plus leftovers of an earlier crash -/
+def exD1 : Disk := crashSession Quirks.fixed exP exVals exTr (crashSession Quirks.fixed exP exVals exTr Disk.blank 0 3) 1 0
+
+example : exD1.files.get (.tmp 0) = some (.model 1) ∧ recorded exD1 = some 1 := by decide
+
+theorem exD1_rec : Rec exP exVals exTr exD1 := recOk_sound (by decide)
+
+/-- `C16_rec_step` where things happen: the update of epoch 2 (the new best) on `exD1`; the clean-up set is
+`{model 1, optim 1}`, taken in the REVERSE order, killed after the first removal (call 12 of 13). -/
+example : Rec exP exVals exTr (exec exD1 ((opsOf
+    (saveOps exP exD1 2 (U exTr 2) ++ histOps Quirks.fixed exD1 2) [.optim 1, .model 1]).take 12)) :=
+  C16_rec_step exVals exTr exD1 exD1_rec 1 (by decide) (by decide)
+    (exP_inj.safeAt exVals 1) (exP_inj.sep exVals 1)
+    (saveOps exP exD1 2 (U exTr 2) ++ histOps Quirks.fixed exD1 2) [.model 1, .optim 1] rfl
+    [.optim 1, .model 1] (by decide) 12
+
+example : (exec exD1 ((opsOf (saveOps exP exD1 2 (U exTr 2) ++ histOps Quirks.fixed exD1 2)
+    [.optim 1, .model 1]).take 12)).files.get (.optim 1) = none := by decide
+
+/-- `C16_rec_step_torn` with all hypotheses: the second `torch.save` (call 5) of that update stops half-way -/
+example : Rec exP exVals exTr (tornDisk tear exD1 (opsOf
+    (saveOps exP exD1 2 (U exTr 2) ++ histOps Quirks.fixed exD1 2) [.model 1, .optim 1]) 5) :=
+  C16_rec_step_torn exVals exTr exD1 exD1_rec 1 (by decide) (by decide)
+    (exP_inj.safeAt exVals 1) (exP_inj.sep exVals 1)
+    (saveOps exP exD1 2 (U exTr 2) ++ histOps Quirks.fixed exD1 2) [.model 1, .optim 1] rfl
+    [.model 1, .optim 1] (by decide) 5 (by intro e h; simp [opsOf, saveOps] at h)
+
+/-- `C16_rec_full` on `exD1` -/
+example : RecAt exP exVals exTr (exec exD1 (opsOf
+    (saveOps exP exD1 2 (U exTr 2) ++ histOps Quirks.fixed exD1 2) [.optim 1, .model 1])) 2 :=
+  C16_rec_full exVals exTr exD1 1 (recAt_of_recOk (by decide) (by decide)) (by decide)
+    (exP_inj.safeAt exVals 1) (exP_inj.sep exVals 1) _ [.model 1, .optim 1] rfl [.optim 1, .model 1] (by decide)
+
+/-- constant file names, keep everything, the disk after epoch 1 -/
+def exDc : Disk := (runLoop Quirks.fixed (constP false) [some 500, some 400] exTr 1 0 St.init Disk.blank).2.2
+theorem exDc_recAt : RecAt (constP false) [some 500, some 400] exTr exDc 1 :=
+  recAt_of_recOk (by decide) (by decide)
+
+/-- `C16_infofirst_window`, hypotheses together -/
+example := C16_infofirst_window (P := constP false) (vals := [some 500, some 400]) (tr := exTr) exDc_recAt
+  (by decide) (U exTr 2) []
+
+/-- `C16_rec_step_iff`, both sides: colliding names (row first: not safe) … -/
+example : ¬ (∀ cl', (∀ p ∈ cl', p ∈ cleanSet (constP false) [some 500, some 400] 1 exDc) → ∀ i,
+    Rec (constP false) [some 500, some 400] exTr
+      (exec exDc ((opsOf (mainOps Quirks.fixed (constP false) [some 500, some 400] 1 exDc (U exTr 2)) cl').take i))) := by
+  rw [C16_rec_step_iff exDc_recAt (by decide) (by decide) (by intro h; cases h) (by decide)]
+  decide
+
+/-- … and names with the epoch (checkpoint first: safe at every call) -/
+example : ∀ cl', (∀ p ∈ cl', p ∈ cleanSet exP exVals 1 exD1) → ∀ i,
+    Rec exP exVals exTr (exec exD1 ((opsOf (mainOps Quirks.fixed exP exVals 1 exD1 (U exTr 2)) cl').take i)) :=
+  (C16_rec_step_iff (recAt_of_recOk (by decide) (by decide)) (by decide) (by decide) (exP_inj.sep exVals 1)
+    (by decide)).2 (by decide)
+
+/-- `C16_resume` / `C16_resume_state` from a disk with garbage, two killed sessions (one torn) -/
+example : RecAt exP exVals exTr (faulty Quirks.fixed exP exVals exTr exD1 [(0, 7, false), (1, 2, true)]) 3 :=
+  C16_resume exVals (exP_inj.safeFmt exVals) exTr exD1 exD1_rec _
+
+example := C16_resume_state exVals (exP_inj.safeFmt exVals) exTr exD1 exD1_rec [(0, 7, false), (1, 2, true)]
+
+/-- `C16_lr_order_necessary` applied: epoch 2 of `exTr` is the reduction (0 → 1) -/
+example := C16_lr_order_necessary (P := exP) (vals := exVals) (tr := exTr) (d := exD1) (k := 1) (l := 1)
+  (recAt_of_recOk (by decide) (by decide)) (by decide) (exP_inj.safeAt exVals 1) (exP_inj.sep exVals 1) rfl (by decide)
+
+/-- `C16_keepall_step`: keep everything, the disk after epoch 1, killed between the renames of epoch 2 -/
+def exDa : Disk := (runLoop Quirks.fixed exPall exVals exTr 1 0 St.init Disk.blank).2.2
+example := C16_keepall_step (P := exPall) ⟨fun _ _ h => h, fun _ _ h => h⟩ rfl exVals exTr exDa 1
+  ⟨recAt_of_recOk (by decide) (by decide), by intro j h1 h2; have : j = 1 := by omega
+                                              subst this; decide⟩
+  (by decide) _ _ rfl 7
 
 end PdtVerif.Checkpoint
